@@ -107,6 +107,15 @@ func c20Request(which string, st c20Start) *signature.SignRequest {
 		key = "p384-c" // request B comes with another signer, chain and algorithm: nothing of A's may survive into B's content
 	}
 	chain := chainFor(key)
+	if which == "A" {
+		// request A's signer comes with a chain of one (self-signed), two or three certificates, depending on the start state
+		switch st.start {
+		case "new":
+			chain = wideChain(key, 1)
+		case "parsed-tampered":
+			chain = wideChain(key, 3)
+		}
+	}
 	req := &signature.SignRequest{
 		Payload:       signature.Payload{ContentType: "application/vnd.cncf.notary.payload.v1+json", Content: []byte(`{"request":"` + which + `"}`)},
 		SigningTime:   pki.Now.Add(-time.Hour),
@@ -428,6 +437,6 @@ func init() {
 			}
 			return w
 		},
-		BudgetS: [2]int{150, 1500},
+		BudgetS: [2]int{170, 2700},
 	})
 }
